@@ -1151,6 +1151,18 @@ func (env *ExprEnv) call(e *ast.CallExpr) TV {
 		k := env.coerce(env.eval(e.Args[1]), mt.Key(), v.sortOf(mt.Key()))
 		dom, _ := v.mapArrays(mt)
 		return TV{T: fmt.Sprintf("(select (select %s %s) %s)", v.heapGet(env.heapNow(), dom), m.T, k.T), Ty: types.Typ[types.Bool], Sort: "Bool"}
+	case "calls", "lastnonnil":
+		// calls(f): number of invocations of function value f so far (ghost trace)
+		f := env.eval(e.Args[0])
+		if f.Sort != "Int" {
+			fail("%s() of a non-function value", fname)
+		}
+		v.regArray("CALLS", fmt.Sprintf("(Array Int %s)", v.idx()))
+		v.regArray("ARGNN", "(Array Int Bool)")
+		if fname == "calls" {
+			return TV{T: fmt.Sprintf("(select %s %s)", v.heapGet(env.heapNow(), "CALLS"), f.T), Ty: types.Typ[types.Int], Sort: v.idx()}
+		}
+		return TV{T: fmt.Sprintf("(select %s %s)", v.heapGet(env.heapNow(), "ARGNN"), f.T), Ty: types.Typ[types.Bool], Sort: "Bool"}
 	case "cast":
 		// cast(x, "T"): reinterpret a reference (interface value) as type T. Trusted:
 		// used for views of interfaces with a single production implementation.
